@@ -292,7 +292,10 @@ _jpeg_crop_scanline(j_decompress_ptr cinfo, JDIMENSION *xoffset,
                                 (long)align) - 1;
   }
 
-  if (reinit_upsampler) {
+  /* (The merged upsampler is a different object and has no such special
+   * case.)
+   */
+  if (reinit_upsampler && !master->using_merged_upsample) {
     cinfo->master->jinit_upsampler_no_alloc = TRUE;
     _jinit_upsampler(cinfo);
     cinfo->master->jinit_upsampler_no_alloc = FALSE;
